@@ -160,4 +160,11 @@ def run(tier, seed, procs):
                             for i in range(hs)], procs)
     cs, cn = (4, 50) if quick else (16, 2500)
     cols += drive.pool_map(shard_collections, [(cn, seed * 1000 + 800 + i) for i in range(cs)], procs)
+    if not quick:
+        # coverage-guided campaign (atheris/libFuzzer over the same strategies)
+        from vlib import fuzz
+        if fuzz.available():
+            cols += drive.pool_map(fuzz.campaign, [('c12', PROP, 15000, seed, i) for i in range(procs)], procs)
+        else:
+            cols[0].notes.append('atheris not importable: coverage-guided campaign skipped (Hypothesis only)')
     return drive.merge_all(PROP, cols)
